@@ -244,12 +244,13 @@ def afterDrops (w : World) : World :=
   { w.modCtl w.tid (fun c => { c with locals := c.locals.map fun (k, _) => (k, none) }) with
     tlsDrops := (liveKeys w).foldl bump w.tlsDrops }
 
-/-- the destructor of key 0 under `tlsdtor=2`: `try_with` on key 1 (destroyed → observation 2;
-never initialised by this thread → initialised on the spot, observation 1) -/
+/-- the destructor of key 0 under `tlsdtor=2`: `try_with` on key 1 (destroyed → observation bit 2;
+never initialised by this thread → initialised on the spot, observation bit 1); the observations of an
+execution are or-ed -/
 def dtor2Probe (t : Nat) (w : World) : World :=
   match (w.ctlOf t).locals.lookup 1 with
-  | some _ => { w with tlsObs := w.tlsObs.set 0 2 }
-  | none => { (w.tlsGet 1).1 with tlsObs := (w.tlsGet 1).1.tlsObs.set 0 1 }
+  | some _ => { w with tlsObs := w.tlsObs.set 0 (w.tlsObs.getD 0 0 ||| 2) }
+  | none => { (w.tlsGet 1).1 with tlsObs := (w.tlsGet 1).1.tlsObs.set 0 ((w.tlsGet 1).1.tlsObs.getD 0 0 ||| 1) }
 
 theorem foldl_drops (l : List Nat) (w : World) :
     l.foldl (fun w k => { w with tlsDrops := w.tlsDrops.set k (w.tlsDrops.getD k 0 + 1) }) w =
